@@ -49,6 +49,7 @@ let canon ?(blocks=true) ?(sortd=false) sizes sortx (tr : tev list) =
     let xs = if sortx then Stdlib.List.sort compare (Stdlib.List.rev !xrun) else Stdlib.List.rev !xrun in
     Stdlib.List.iter (fun x -> toks := ("X" ^ string_of_int x) :: !toks) xs; xrun := [] in
   Stdlib.List.iter (fun e -> match e with
+    | TVia _ -> ()
     | TDestroy l -> xrun := o l :: !xrun
     | (TAlloc _ | TDealloc _) when not blocks -> ()
     | TDealloc (x, _) when sortd -> drun := b x :: !drun
@@ -186,6 +187,86 @@ let () = iter_lines (fun line ->
     let kinds = Stdlib.List.filter_map (function TCopy _ -> Some "C" | TMove _ -> Some "M" | TDestroy _ -> Some "X" | TFail -> Some "F" | _ -> None)
         (Stdlib.List.rev s1.trace) in
     print_endline ("kinds" ^ String.concat "" (Stdlib.List.map (fun k -> " " ^ k) kinds) ^ " ! 0 0 0")
+  | ["pc"; cfg; script; f] ->
+    let (c, cf) = match cfg with "2.0" -> (2, 0) | "4.3" -> (4, 3) | "3.2" -> (3, 2) | _ -> (8, 16) in
+    let cz = z c and cfz = z cf and uc = cf > 0 and f = int_of_string f in
+    let module P = PoolConcC09 in
+    let w = ref P.empty_world and held = [| ref []; ref [] |] and out = Buffer.create 128 and allocs = ref 0 in
+    let ren = Hashtbl.create 16 in
+    let b x = match Hashtbl.find_opt ren x with Some n -> n | None -> let n = Hashtbl.length ren in Hashtbl.add ren x n; n in
+    let emit w0 w1 =
+      let f0 = int_of_z w0.P.fresh and f1 = int_of_z w1.P.fresh in
+      for i = f0 to f1 - 1 do Buffer.add_string out (Printf.sprintf " A%d" (b i)) done;
+      let n0 = Stdlib.List.length w0.P.returned and n1 = Stdlib.List.length w1.P.returned in
+      let rec take k l = if k = 0 then [] else match l with [] -> [] | x :: r -> x :: take (k - 1) r in
+      Stdlib.List.iter (fun x -> Buffer.add_string out (Printf.sprintf " D%d" (b (int_of_z x)))) (Stdlib.List.rev (take (n1 - n0) w1.P.returned)) in
+    let apply tok =
+      let p = Char.code tok.[1] - 48 in let pb = (p = 1) in
+      let w0 = !w in
+      (match tok.[0] with
+       | 'a' -> let (w1, bk) = P.coq_Allocate cz uc w0 pb in
+         let nbuf = int_of_z w1.P.fresh - int_of_z w0.P.fresh in
+         if nbuf > 0 && f >= 0 && !allocs <= f && f < !allocs + nbuf then begin allocs := f + 1; Buffer.add_string out " F" end   (* the allocation throws: no effect *)
+         else begin allocs := !allocs + nbuf; w := w1; held.(p) := !(held.(p)) @ [bk] end
+       | 'd' -> let k = int_of_string (String.sub tok 3 (String.length tok - 3)) in
+         if k < Stdlib.List.length !(held.(p)) then begin
+           let bk = Stdlib.List.nth !(held.(p)) k in
+           w := P.coq_Deallocate cz cfz uc w0 pb bk;
+           held.(p) := Stdlib.List.filteri (fun i _ -> i <> k) !(held.(p)) end
+       | 'm' -> w := P.coq_MergeFrom cz uc w0 pb; held.(p) := !(held.(p)) @ !(held.(1 - p)); held.(1 - p) := []
+       | 'x' -> w := P.coq_DeallocateAll w0 pb; held.(p) := []
+       | _ -> ());
+      emit w0 !w;
+      if tok.[0] = 'm' then begin
+        let src = P.getp !w (not pb) in
+        Buffer.add_string out (Printf.sprintf " [c%db%s]" (Stdlib.List.length src.P.cache) (if src.P.lfree = [] then "0" else "1")) end in
+    Stdlib.List.iter (fun tok -> if tok <> "" then begin Buffer.add_string out " |"; apply tok end) (String.split_on_char ',' script);
+    Buffer.add_string out " |";
+    let w0 = !w in
+    for p = 0 to 1 do Stdlib.List.iter (fun bk -> w := P.coq_Deallocate cz cfz uc !w (p = 1) bk) !(held.(p)); held.(p) := [] done;
+    emit w0 !w;
+    Buffer.add_string out " |";
+    let w0 = !w in
+    w := P.coq_DeallocateAll (P.coq_DeallocateAll !w true) false;      (* ~pool[1], ~pool[0] *)
+    emit w0 !w;
+    print_endline ("pc" ^ Buffer.contents out ^ " ! 0 0 0")
+  | ["migv"; n; k] ->
+    let n = int_of_string n in
+    let s0 = { cells = init_cells (z 0) (z n); blocks = [(z 0, (z 1, BinInt.Z.mul (z n) (z 8)))];
+               sched = sched_of (int_of_string k); nextb = z 1; trace = [] } in
+    let (o, s1) = Effects6.migrate_block_then_destroy (z 1) (z 2) (z 8) (z 0) (nat_of_int n) s0 in
+    let tbl = Hashtbl.create 8 in
+    let bump key = Hashtbl.replace tbl key (1 + (try Hashtbl.find tbl key with Not_found -> 0)) in
+    let rec go via = function
+      | [] -> ()
+      | TVia m :: r -> go (zs m) r
+      | TAlloc _ :: r -> bump ("A" ^ via); go via r
+      | TDealloc _ :: r -> bump ("D" ^ via); go via r
+      | TMove _ :: r -> bump "M"; go via r
+      | TCopy _ :: r -> bump "C"; go via r
+      | TDestroy _ :: r -> bump "X"; go via r
+      | TFail :: r -> bump "F"; go via r in
+    go "?" (Stdlib.List.rev s1.trace);
+    let keys = Stdlib.List.sort compare (Hashtbl.fold (fun k _ acc -> k :: acc) tbl []) in
+    print_endline ((match o with Val _ -> "val" | Exc -> "exc" | Stuck -> "stuck") ^
+      String.concat "" (Stdlib.List.map (fun k -> Printf.sprintf " %s:%d" k (Hashtbl.find tbl k)) keys) ^ " ! 0 0 0")
+  | ["dtc"; script] ->
+    (* NewRow = pvAllocateRaw: reclaim the free-raw stack if it is not empty, then allocate *)
+    let s = ref (init_state (z (-1)) (z 0) []) in
+    let t = ref (match p_alloc mgr (z 24) !s with (Val c, s1) -> s := s1; { Effects6.d_crew = c; d_rows = []; d_held = []; d_free = [] } | _ -> failwith "crew") in
+    let step op = match Effects6.dt_step mgr (z 40) op !t !s with ((t', _), s') -> t := t'; s := s' in
+    let out = Buffer.create 64 in
+    String.iter (fun ch ->
+      (match ch with
+       | 'n' -> if !t.Effects6.d_free <> [] then step Effects6.DReclaim; step Effects6.DNew
+       | 'a' -> step Effects6.DAdd
+       | 'e' -> step Effects6.DExtract
+       | 'r' -> step Effects6.DDispose
+       | _ -> ());
+      let len l = Stdlib.List.length l in
+      Buffer.add_string out (Printf.sprintf " %d,%d,%d" (len !t.Effects6.d_rows + len !t.Effects6.d_held + len !t.Effects6.d_free)
+                               (len !t.Effects6.d_free) (len !t.Effects6.d_rows))) script;
+    print_endline ("dtc" ^ Buffer.contents out ^ " ! 0 0 0")
   | ["sa2"; n; k] ->     (* 4 items of 8 bytes per segment; pointer array: Array growth policy (<=2 -> 4, else doubled), 8 bytes per pointer *)
     let pgrow cap need = let c = int_of_nat cap and nd = int_of_nat need in
       nat_of_int (max (if c <= 2 then 4 else 2 * c) nd) in
